@@ -83,7 +83,11 @@ func (e *env) dump() any {
 		}
 		txs = append(txs, s)
 	}
-	return map[string]any{"cfg": e.cfg.String(), "cut": e.cut, "ledger": txs}
+	d := map[string]any{"cfg": e.cfg.String(), "cut": e.cut, "ledger": txs}
+	if e.wedged {
+		d["goroutines_at_hang"] = hangDump.Load()
+	}
+	return d
 }
 
 func (e *env) n() uint64 {
@@ -444,6 +448,27 @@ func valAppends(fs *fsim.FS) int {
 	return n
 }
 
+// appendCounter counts the completed value-log appends without copying the event list on every poll.
+type appendCounter struct {
+	fs      *fsim.FS
+	scanned int
+	n       int
+}
+
+func (a *appendCounter) count() int {
+	if a.fs.Len() == a.scanned {
+		return a.n
+	}
+	evs := a.fs.Events()
+	for _, ev := range evs[a.scanned:] {
+		if ev.Kind == fsim.Append && strings.HasPrefix(ev.Log, "val_") {
+			a.n++
+		}
+	}
+	a.scanned = len(evs)
+	return a.n
+}
+
 // loadByReplication writes `total` transactions on a primary store, exports them, and replicates them into the
 // store under test with `window` replicators in flight: launch order is a generated permutation in which a tx is
 // launched at most window-1 positions early; the next replicator starts only when the previous one has appended
@@ -502,7 +527,8 @@ func (e *env) loadByReplication(rt *rapid.T, window, total int) string {
 		err error
 	}
 	results := make(chan res, total)
-	expected := valAppends(e.fs)
+	appends := &appendCounter{fs: e.fs}
+	expected := appends.count()
 	inFlight, doneN := 0, 0
 	take := func(r res) {
 		inFlight--
@@ -521,8 +547,8 @@ func (e *env) loadByReplication(rt *rapid.T, window, total int) string {
 			select {
 			case r := <-results:
 				take(r)
-			case <-time.After(60 * time.Second):
-				e.failf("harness: concurrent ReplicateTx did not complete within 60 s (launch order %v)", order)
+			case <-time.After(120 * time.Second):
+				e.failf("harness: concurrent ReplicateTx did not complete within 120 s (launch order %v)", order)
 			}
 		}
 		inFlight++
@@ -535,15 +561,15 @@ func (e *env) loadByReplication(rt *rapid.T, window, total int) string {
 				expected++
 			}
 		}
-		deadline := time.Now().Add(60 * time.Second)
-		for valAppends(e.fs) < expected {
+		deadline := time.Now().Add(120 * time.Second)
+		for appends.count() < expected {
 			select {
 			case r := <-results:
 				take(r)
 			default:
 			}
 			if time.Now().After(deadline) {
-				e.failf("harness: replicator of tx %d did not append its values within 60 s (launch order %v)", i+1, order)
+				e.failf("harness: replicator of tx %d did not append its values within 120 s (launch order %v)", i+1, order)
 			}
 			time.Sleep(20 * time.Microsecond)
 		}
@@ -578,8 +604,8 @@ func (e *env) loadByReplication(rt *rapid.T, window, total int) string {
 		select {
 		case r := <-results:
 			take(r)
-		case <-time.After(60 * time.Second):
-			e.failf("harness: concurrent ReplicateTx did not complete within 60 s (launch order %v)", order)
+		case <-time.After(120 * time.Second):
+			e.failf("harness: concurrent ReplicateTx did not complete within 120 s (launch order %v)", order)
 		}
 	}
 	news := map[uint64]*ltx{}
@@ -786,11 +812,11 @@ func (e *env) verify(what string) {
 	}
 
 	// index
-	ctx, cancel := context.WithTimeout(context.Background(), 60*time.Second)
+	ctx, cancel := context.WithTimeout(context.Background(), 120*time.Second)
 	err = st.WaitForIndexingUpto(ctx, n)
 	cancel()
 	if err != nil {
-		e.failf("%s: indexing did not catch up with tx %d within 60 s: %v", what, n, err)
+		e.failf("%s: indexing did not catch up with tx %d within 120 s: %v", what, n, err)
 	}
 	m := e.model()
 	for _, k := range m.Keys(nil, n) {
@@ -1003,7 +1029,7 @@ func (e *env) truncate(n uint64) {
 // ---------------------------------------------------------------------------
 
 func TestStoreTruncation(t *testing.T) {
-	vk.Check(t, 250, 12000, func(rt *rapid.T, c *vk.Case) {
+	vk.Check(t, 250, 6000, func(rt *rapid.T, c *vk.Case) {
 		e := &env{rt: rt, c: c, cfg: genStoreCfg(rt)}
 		e.emptyPct = rapid.SampledFrom([]int{0, 0, 3, 3, 8, 20}).Draw(rt, "emptyPct")
 		e.dir = vk.Dir()
@@ -1318,11 +1344,11 @@ func (e *env) concurrentPhase(rt *rapid.T) {
 	if nReaders == 0 && nWriters == 0 {
 		frame = "store.(*ImmuStore).fetchVLog" // only truncators: all of them parked on a value-log lock = nobody left to release one
 	}
-	fin := bounded(frame, fns...)
+	fin := boundedFor(3*liveness, frame, fns...) // the phase is up to a few dozen calls
 	e.jitterOn.Store(false)
 	if !fin {
 		e.wedged = true
-		e.failf("concurrent phase (truncations at %s by %d truncators, %d writers, %d readers, MaxIOConcurrency %d) did not complete within %v", desc, nTrunc, nWriters, nReaders, e.cfg.IOConc, liveness)
+		e.failf("concurrent phase (truncations at %s by %d truncators, %d writers, %d readers, MaxIOConcurrency %d) did not complete within %v", desc, nTrunc, nWriters, nReaders, e.cfg.IOConc, 3*liveness)
 	}
 	sort.Strings(errs)
 	if len(errs) > 0 {
